@@ -486,17 +486,21 @@ pub fn replay_arith(case: &Value, rep: &mut Report, rng: &mut Rng) {
                         // (the mean over three or more tensors is a sum of more than two terms: its order is not prescribed, so it is
                         // compared within a rounding bound; everything else is a single IEEE operation per element)
                         let several = op == "mean" && bs.len() >= 2;
-                        let agree = |g: f32, w: f32| {
+                        // (a sum of three or more terms may be taken in any order: the orders differ by at most a few ulps of the SUM
+                        // OF THE MAGNITUDES -- not of the result, which cancellation can make arbitrarily small)
+                        let magnitudes: Vec<f64> = (0..a.len()).map(|k| (a[k].abs() as f64 + bs.iter().map(|b| b[k].abs() as f64).sum::<f64>()) / (bs.len() + 1) as f64).collect();
+                        let agree_at = |k: usize, g: f32, w: f32| {
+                            let within_magnitudes = several && ((g as f64 - w as f64).abs() <= 4.0 * f32::EPSILON as f64 * magnitudes[k] * (bs.len() + 1) as f64);
                             if several && uniform.map(|c| c == 0.0).unwrap_or(false) {
                                 // zeros of one sign only: whatever the order of the additions, the IEEE sum keeps that sign
                                 g.to_bits() == w.to_bits()
                             } else if several {
-                                (g.is_nan() && w.is_nan()) || g == w || (g - w).abs() <= 4.0 * f32::EPSILON * w.abs().max(f32::MIN_POSITIVE) || (!w.is_finite() || !g.is_finite())
+                                (g.is_nan() && w.is_nan()) || g == w || (g - w).abs() <= 4.0 * f32::EPSILON * w.abs().max(f32::MIN_POSITIVE) || (!w.is_finite() || !g.is_finite()) || within_magnitudes
                             } else {
                                 g.to_bits() == w.to_bits() || (g.is_nan() && w.is_nan())
                             }
                         };
-                        let bad = if got.len() != want.len() { Some(0) } else { (0..got.len()).find(|k| !agree(got[*k], want[*k])) };
+                        let bad = if got.len() != want.len() { Some(0) } else { (0..got.len()).find(|k| !agree_at(*k, got[*k], want[*k])) };
                         if let Some(k) = bad {
                             rep.mismatch("C15", "float_value", &id, json!({"step": i, "op": op, "element": k, "observed": got.get(k).map(|v| format!("{:e}", v)), "expected": want.get(k).map(|v| format!("{:e}", v)),
                                                                             "operand": a.get(k).map(|v| format!("{:e}", v))}), case);
